@@ -307,11 +307,18 @@ pub struct IntentSpec {
     /// A fabricated (never-committed) parent receipt coordinate, as the in-tree
     /// tests use, to exercise retained causal-parent material without a tick.
     pub fake_parent: Option<u8>,
+    /// The installed handler's matcher declines this intent (its variables do
+    /// not start with `slot=`): admitted and staged, but no rule applies.
+    pub decline: bool,
 }
 
 impl IntentSpec {
     pub fn vars(&self) -> Vec<u8> {
-        format!("slot={};amount={}", self.slot, self.amount).into_bytes()
+        if self.decline {
+            format!("skip={};amount={}", self.slot, self.amount).into_bytes()
+        } else {
+            format!("slot={};amount={}", self.slot, self.amount).into_bytes()
+        }
     }
 }
 
